@@ -193,11 +193,6 @@ def check(c):
         raise Violation('std', f'{where}: leaf {li} std {gstd.ravel()[:4]} != clip(sqrt(sv/count), {smin}, {smax}) = {estd.ravel()[:4]}')
       if np.any(gstd < smin * (1 - 1e-15)) or np.any(gstd > smax * (1 + 1e-15)):
         raise Violation('std_bounds', f'{where}: std outside [{smin}, {smax}]')
-      # against the true population std wherever the bounds do not bite and the column is not (near) constant
-      tstd = np.sqrt(var)
-      free = (tstd > smin * 1.001) & (tstd < smax * 0.999) & (tstd > 1e-6 * maxabs[li])
-      if np.any(free) and not np.max(np.abs(gstd[free] - tstd[free]) / tstd[free]) <= 1e-7:
-        raise Violation('std_population', f'{where}: leaf {li} std differs from population std')
   # normalise / denormalise
   xs = pack(kind, [x[:5] for x in data], None if ints is None else ints[:5], jp)
   nrm = rs.normalize(xs, state)
